@@ -10,3 +10,4 @@ for ID in $IDS; do
   echo "$ID $TIER seed=$SEED exit=$CODE $((T1-T0))s $(echo "$OUT" | grep -c '^VIOLATION') violations $(echo "$OUT" | grep -c '^KNOWN-FINDING') known | $(echo "$OUT" | grep '^hv: C.. tier' | tail -1)"
   [ "$CODE" != 0 ] && echo "$OUT" | grep -v '^  case:' | tail -15
 done
+exit 0
